@@ -159,6 +159,24 @@ let () =
               let bs = List.init k (fun j -> n_of_int ((i lsr (8 * (k - 1 - j))) land 255)) in
               emit (len_de_s f.(1) (bs @ suffix))
             done
+        | "dec_all" | "enum_all" ->
+            let g = if f.(0) = "dec_all" then dec_s else enum_s in
+            let prefix = unhex f.(2) in
+            all_strings (int_of_string f.(3)) [] (fun bs -> emit (g f.(1) (prefix @ bs)))
+        | "dec_trunc" | "enum_trunc" ->
+            let g = if f.(0) = "dec_trunc" then dec_s else enum_s in
+            let bs = Array.of_list (unhex f.(2)) in
+            for k = 0 to Array.length bs - 1 do emit (g f.(1) (Array.to_list (Array.sub bs 0 k))) done
+        | "dec_subst" | "enum_subst" ->
+            let g = if f.(0) = "dec_subst" then dec_s else enum_s in
+            let bs = Array.of_list (unhex f.(2)) in
+            for off = 0 to Array.length bs - 1 do
+              for v = 0 to 255 do
+                let b2 = Array.copy bs in
+                b2.(off) <- n_of_int v;
+                emit (g f.(1) (Array.to_list b2))
+              done
+            done
         | "dec" -> emit (dec_s f.(1) (unhex f.(2)))
         | "enum" -> emit (enum_s f.(1) (unhex f.(2)))
         | "p_enc" -> emit (p_enc_s f.(1) f.(2) (parse_prim_value f.(3)))
